@@ -31,6 +31,7 @@ type c11Row struct {
 	Ordinal int            `json:"ordinal"`
 	Symbols []string       `json:"symbols"`
 	Len     int            `json:"len"`
+	Field   string         `json:"field"`
 }
 
 func exportedName(s string) string { return strings.ToUpper(s[:1]) + s[1:] }
@@ -222,6 +223,88 @@ func runC11(rowsFile string, b *hc.Builder) {
 			} else if row.Legal {
 				if d := diffPatch(b, back.Elem(), row.Patch, row.Schema); d != "" {
 					violation("C11/patch/roundtrip/"+feat, "decoded partial update differs: "+d+"  doc: "+clip(doc), cs)
+				}
+			}
+		case "deldoc":
+			// a patch document deleting ONE named field: accepted iff the field may be absent (optional or defaulted),
+			// whether the record declares it itself or inherits it through an include
+			stats["delete_documents"]++
+			typ, ok := registry[row.Schema+"_PartialUpdate"]
+			if !ok {
+				violation("C11/deldoc/no-type/"+row.Schema, "no generated partial-update type", nil)
+				continue
+			}
+			doc := fmt.Sprintf(`{"patch":{"$delete":[%q]}}`, row.Field)
+			cs := map[string]any{"schema": row.Schema, "field": row.Field, "deletable": row.Valid, "doc": doc}
+			for _, rd := range []string{"json", "untyped"} {
+				back := reflect.New(typ)
+				var err error
+				var pan string
+				if rd == "json" {
+					r, e := restlicodec.NewJsonReader([]byte(doc))
+					if e != nil {
+						panic(e)
+					}
+					err, pan = safely(func() error { return back.Interface().(restlicodec.Unmarshaler).UnmarshalRestLi(r) })
+				} else {
+					r := restlicodec.NewInterfaceReader(map[string]any{"patch": map[string]any{"$delete": []any{row.Field}}})
+					err, pan = safely(func() error { return back.Interface().(restlicodec.Unmarshaler).UnmarshalRestLi(r) })
+				}
+				key := fmt.Sprintf("%s/%s.%s", rd, row.Schema, row.Field)
+				if pan != "" {
+					violation("C11/deldoc/panic/"+key, pan, cs)
+				} else if row.Valid && err != nil {
+					violation("C11/deldoc/legal-delete-rejected/"+key, "deleting an optional / defaulted field is rejected: "+err.Error(), cs)
+				} else if !row.Valid && err == nil {
+					violation("C11/deldoc/illegal-delete-accepted/"+key, "a document deleting a required field is accepted: "+doc, cs)
+				} else if row.Valid {
+					df := back.Elem().FieldByName("Delete_Fields")
+					got := false
+					var find func(v reflect.Value)
+					find = func(v reflect.Value) { // the flag may live in an embedded (included) struct
+						for i := 0; i < v.NumField(); i++ {
+							if v.Type().Field(i).Name == exportedName(row.Field) && v.Field(i).Kind() == reflect.Bool {
+								got = got || v.Field(i).Bool()
+							} else if v.Field(i).Kind() == reflect.Struct {
+								find(v.Field(i))
+							}
+						}
+					}
+					if df.IsValid() {
+						find(df)
+					}
+					if !got {
+						find(back.Elem())
+					}
+					if !got {
+						violation("C11/deldoc/delete-lost/"+key, "the decoded partial update does not carry the deletion", cs)
+					}
+				}
+			}
+			if row.Valid {
+				// and the other way round: the deletion set on the struct (in whichever embedded struct the flag lives) is encoded
+				ptr := reflect.New(typ)
+				done := false
+				var set func(v reflect.Value)
+				set = func(v reflect.Value) {
+					for i := 0; i < v.NumField() && !done; i++ {
+						if v.Type().Field(i).Name == exportedName(row.Field) && v.Field(i).Kind() == reflect.Bool {
+							v.Field(i).SetBool(true)
+							done = true
+						} else if v.Field(i).Kind() == reflect.Struct {
+							set(v.Field(i))
+						}
+					}
+				}
+				set(ptr.Elem())
+				w := restlicodec.NewCompactJsonWriter()
+				err, pan := safely(func() error { return ptr.Interface().(restlicodec.Marshaler).MarshalRestLi(w) })
+				if !done {
+					violation("C11/deldoc/no-delete-flag/"+row.Schema+"."+row.Field, "the generated partial-update struct has no delete flag for a deletable field", cs)
+				} else if pan != "" || err != nil {
+					violation("C11/deldoc/encode-failed/"+row.Schema+"."+row.Field, fmt.Sprint(err, pan), cs)
+				} else if got := w.Finalize(); got != doc {
+					violation("C11/deldoc/encode/"+row.Schema+"."+row.Field, fmt.Sprintf("encoded %s, the protocol's shape is %s", got, doc), cs)
 				}
 			}
 		case "union":
